@@ -26,7 +26,7 @@ shape("ThreatSignature", agent_id="str", vocabulary_hash="str", structure_hash="
 shape("ImmuneSystem", displays="dict:str,obj:MHCDisplay", tcells="dict:str,obj:TCell", thymus="any", treg="obj:RegulatoryTCell",
       memory="obj:ImmuneMemory", min_training_observations="int")
 shape("MHCDisplay", agent_id="str", observations="list:any")
-shape("ImmuneMemory", signatures="list:obj:ThreatSignature", max_signatures="int")
+shape("ImmuneMemory", signatures="list:obj:ThreatSignature", capacity="int")
 
 
 def in_baseline(b, p):
@@ -155,6 +155,7 @@ def native_replay(rep):
 # ---------------------------------------------------------------- collaborators that ImmuneSystem.inspect assumes total: their own totality obligations
 shape("ImmuneMemoryT", signatures="list:obj:ThreatSignature", capacity="int")
 contract(D + "treg.py::ToleranceRecord.record_inspection", "C17", raises=[], ensures={})
+contract(D + "memory.py::ImmuneMemory.store", "C17", params={"signature": "obj:ThreatSignature"}, raises=[], ensures={})      # incl. pruning at capacity
 contract(D + "memory.py::ImmuneMemory.recall_by_hashes", "C17", self_type="ImmuneMemoryT", raises=[],
          loops={"for sig in self.signatures": {"invariant": ["True"]}},
          ensures={"recalled-signature-matches-the-query": "implies(result is not None, result.agent_id == agent_id and result.vocabulary_hash == vocabulary_hash "
